@@ -849,14 +849,11 @@ func ruleWithoutCutsOnlyAtTheEnd(p *Program, r *Report) {
 						if cond == nil {
 							continue
 						}
-						if DependsOn(cond, func(x ssa.Value) bool {
-							bo, ok := x.(*ssa.BinOp)
-							if !ok || bo.Op != token.EQL && bo.Op != token.NEQ {
-								return false
+						// the cut must sit on the side where the equality holds
+						if bo, ok := cond.(*ssa.BinOp); ok && (bo.Op == token.EQL || bo.Op == token.NEQ) && (DependsOn(bo.X, isStoreLen) || DependsOn(bo.Y, isStoreLen)) {
+							if (bo.Op == token.EQL && d.Succ == 0) || (bo.Op == token.NEQ && d.Succ == 1) {
+								okCut = true
 							}
-							return DependsOn(bo.X, isStoreLen) || DependsOn(bo.Y, isStoreLen)
-						}) {
-							okCut = true
 						}
 					}
 				}
